@@ -168,7 +168,7 @@ def handle (op : String) (j : Json) : Option Json :=
   match op with
   | "stack.run" => some (stackRun j)
   | "bind.prepare" => some (bindPrepare j)
-  | "num.clamp" => some (numClamp j)
+  | "c04.clamp" => some (numClamp j)
   | "str.truncate" => some (strTruncate j)
   | "total.observe" => some (observe j)
   | "total.sweep" => some (sweep j)
